@@ -607,3 +607,107 @@ def run_use(facts, rep):
             rep.ok(R, label, "all %d value(s) read by `let` are used on every returning path" % len(reads), facts.loc(p),
                    sample={"reader": p, "values": sorted(x["pat"]["name"] for x in reads.values())})
     return n
+
+
+# ------------------------------------------------------------------------------------------------------------------
+def _sig(facts, defs, e, depth=0):
+    """name-free structural signature of an expression with single-definition locals expanded"""
+    from facts import strip as _strip, local_of as _lo
+    if not isinstance(e, dict) or depth > 14:
+        return "?"
+    e = _strip(e)
+    k = e.get("k")
+    if k == "Path":
+        if e.get("res") == "local":
+            ds = defs.defs.get(e["lid"], [])
+            if len(ds) == 1 and ds[0] is not e:
+                return _sig(facts, defs, ds[0], depth + 1)
+            return "$"
+        return (e.get("def") or e.get("path") or "?").rsplit("::", 1)[-1]
+    if k == "Lit":
+        return str(e.get("v", "")).split("_")[0]
+    if k in ("Call", "MCall"):
+        f = callee(e) or {}
+        nm = f.get("name") or e.get("name") or "?"
+        args = ([e["recv"]] if k == "MCall" else []) + e.get("args", [])
+        return "%s(%s)" % (nm, ",".join(_sig(facts, defs, a, depth + 1) for a in args))
+    if k == "Closure":
+        return "|%s|" % _sig(facts, defs, e.get("body"), depth + 1)
+    if k == "Block":
+        return _sig(facts, defs, e.get("expr"), depth + 1) if e.get("expr") is not None else "{}"
+    if k == "Index":
+        return "%s[]" % _sig(facts, defs, e["e"], depth + 1)
+    if k == "Field":
+        return "%s.%s" % (_sig(facts, defs, e["e"], depth + 1), e.get("name"))
+    if k == "Bin":
+        return "(%s%s%s)" % (_sig(facts, defs, e["a"], depth + 1), e.get("op"), _sig(facts, defs, e["b"], depth + 1))
+    if k == "Cast":
+        return _sig(facts, defs, e["e"], depth + 1)
+    if k == "Un":
+        return "%s%s" % (e.get("op"), _sig(facts, defs, e["e"], depth + 1))
+    return k or "?"
+
+
+def _width_args(facts, p):
+    """signatures of the quantities whose byte width (`get_u64_limit(Q)`) the function uses"""
+    from facts import Defs as _Defs
+    body = facts.hir[p]
+    defs = _Defs(body)
+    out = []
+    for x in walk(body):
+        if x.get("k") == "Call" and (callee(x) or {}).get("name") == "get_u64_limit" and x.get("args"):
+            out.append((_sig(facts, defs, x["args"][0]), x))
+    return out
+
+
+def run_width(facts, rep):
+    """R-WIRE(width) [N]: writer, reader and size function of one object take the byte width of limited-width words from the SAME
+    quantity.  `get_u64_limit(Q)` is the number of bytes needed for values up to Q; each member of a (serialize, deserialize,
+    serialized_size) group that packs limited-width words calls it.  The name-free signatures of Q (locals expanded, closures
+    by their body) must coincide as sets across the members.  If one member wraps the quantity in extra arithmetic
+    (`Q - 1`, `Q >> 1`, ...) the widths differ for the values of Q where the wrapped quantity needs one byte less (t a power of
+    256): bytes written != bytes consumed, the object and everything after it in the stream are misread."""
+    R = "R-WIRE(width)"
+    rep.rule(R, "the members of each (writer, reader, size) group take get_u64_limit of the same quantities")
+    n = 0
+    for key, g in sorted(triples(facts).items(), key=repr):
+        label = "%s::%s" % (key[2] if key[0] == "trait" else key[1], key[1].rsplit("::", 1)[-1] if key[0] == "trait" else key[2])
+        sigs = {role: _width_args(facts, p) for role, p in g.items()}
+        if not any(sigs.values()):
+            continue
+        n += 1
+        for p in g.values():
+            rep.fn(p)
+        sets = {role: {s for s, _ in v} for role, v in sigs.items() if v}
+        k = "%s/width" % label
+        if len(sets) < 2:
+            rep.unresolved(R, k, "only one member of the group computes a width here (the others delegate)", facts.loc(g["w"]))
+            continue
+        ref_role = "w" if "w" in sets else sorted(sets)[0]
+        ref = sets[ref_role]
+        bad = None
+        diff_any = False
+        for role, s in sets.items():
+            if s == ref:
+                continue
+            diff_any = True
+            for a in s - ref:
+                for b in ref - s:
+                    # one is the other wrapped in arithmetic?
+                    if (b in a and a != b) or (a in b and a != b):
+                        bad = (role, a, b)
+        if not diff_any:
+            rep.ok(R, k, "all members take the width of: %s" % "; ".join(sorted(ref)), facts.loc(g["w"]),
+                   sample={"group": label, "quantities": sorted(ref)})
+        elif bad:
+            names = {"w": "writer", "r": "reader", "s": "size function"}
+            node = [x for s_, x in sigs[bad[0]] if s_ == bad[1]][0]
+            rep.violation(R, k, "the %s takes the byte width of `%s` while the %s takes it of `%s`: for the values where these need a "
+                          "different number of bytes (a modulus that is a power of 256) bytes written != bytes announced / consumed, "
+                          "and the object and everything after it in the stream are misread" %
+                          (names.get(bad[0], bad[0]), bad[1], names.get(ref_role, ref_role), bad[2]), facts.loc(g[bad[0]], node))
+        else:
+            rep.unresolved(R, k, "the members compute widths from differently written quantities: %s" %
+                           "; ".join("%s: %s" % (r_, sorted(s_)) for r_, s_ in sorted(sets.items())), facts.loc(g["w"]))
+    rep.floor(R, "groups packing limited-width words", n, 2)
+    return n
